@@ -29,6 +29,7 @@ ASSUMPTIONS = [
 ]
 SHARDS = {"quick": 8, "thorough": 16}
 MIN_REACH = {
+    "crops_sown_anew_whose_settings_file_kept_its_size_and_time_stamp": {"quick": 3, "thorough": 10},
     "another_session_wrote_between_sow_and_reap": {"quick": 2, "thorough": 40},
     "resown_after_a_farmer_constant_was_changed": {"quick": 6, "thorough": 80},
     "pipelines_compared": {"quick": 120, "thorough": 1200},
@@ -92,6 +93,11 @@ def cases(ctx):
             c["num_batches"] = rng.randint(1, nset + 2)
         yield c
 
+    # a crop deleted and sown ANEW (another grid / another batching, a settings file of the same size and time stamp) while a
+    # long-lived Crop object that had looked at the earlier crop is still in use
+    for k in range(ctx.pick(4, 12)):
+        yield {"stale_settings": ["grid", "batching"][k % 2], "k": k}
+
 
 def _kind(descr):
     return {"y": "float", "yy": "multi:s,s", "yz_coords": "multi:s,a3", "yz_const": "multi:s,a3", "dataset": "dataset:3"}[descr]
@@ -124,6 +130,22 @@ def _direct(farmer_obj, runner, w, **kw):
 
 
 def run_case(ctx, case):
+    if case.get("stale_settings"):
+        import xyzpy as _x
+        tmp_ = ctx.mkdtemp("stale")
+        try:
+            with quiet():
+                probs_, same_size_ = cropkit.stale_settings_scenario(_x, tmp_, case["stale_settings"], farmer=True)
+        except Exception as e_:
+            probs_, same_size_ = ["the scenario raised %r" % (e_,)], False
+        ctx.count("crops_sown_anew_behind_a_long_lived_crop_object")
+        if same_size_:
+            ctx.count("crops_sown_anew_whose_settings_file_kept_its_size_and_time_stamp")
+        for m_ in probs_[:2]:
+            ctx.violation(case, m_, {"api": "long-lived Crop", "oracle": "looks-at-the-crop-that-is-there", "variant": case["stale_settings"]})
+        ctx.observe(case, key=("stale", case["stale_settings"], case["k"]))
+        ctx.rmtree(tmp_)
+        return
     import xyzpy
     import xarray as xr
     w = case["w"]
